@@ -217,6 +217,12 @@ class FakePool(object):
         self.ctl.pools_created += 1
         self.closed = False
         procs = a[0] if a else k.get("processes", k.get("nodes", k.get("ncpus")))
+        if procs is not None and not isinstance(procs, bool) and self.flavor == "mp":
+            # the standard library refuses a pool without workers (and a non-integral size)
+            if not isinstance(procs, int) and not hasattr(procs, "__index__"):
+                raise TypeError("processes must be an integer")
+            if int(procs) < 1:
+                raise ValueError("Number of processes must be at least 1")
         self._processes = int(procs) if procs else self.ctl.nworkers
         self.ncpus = self.nodes = self._processes          # pathos spellings
 
